@@ -49,12 +49,16 @@ def dump(filters, log=print, timeout=3000):
     info = {"cached": False, "secs": 0.0, "dir": out, "filters": len(set(filters))}
     if os.path.exists(marker):
         info["cached"] = True
+        try:
+            os.utime(out)        # in use: a concurrent run must not take it for a stale dump
+        except OSError:
+            pass
         return out, info
     os.makedirs(MIR_ROOT, exist_ok=True)
     # drop stale dumps (other tree states)
     for d in os.listdir(MIR_ROOT):
         p = os.path.join(MIR_ROOT, d)
-        if d != key and os.path.isdir(p) and time.time() - os.path.getmtime(p) > 900:
+        if d != key and os.path.isdir(p) and time.time() - os.path.getmtime(p) > 3600:
             shutil.rmtree(p, ignore_errors=True)
     tmp = out + ".tmp%d" % os.getpid()
     shutil.rmtree(tmp, ignore_errors=True)
